@@ -42,8 +42,16 @@ func segsOf(v spec.Vec) []string {
 // Mutated draws a string within a few token- and character-level edits of a valid vector
 // (of any level up to environmental) and returns it with the labels of the edits applied.
 func Mutated(t *rapid.T, ver int) (string, []string) {
+	s, labels, _ := MutatedFrom(t, ver)
+	return s, labels
+}
+
+// MutatedFrom is Mutated that also returns the valid vector the edits started from.
+func MutatedFrom(t *rapid.T, ver int) (string, []string, string) {
 	lv := Level().Draw(t, "srclevel")
-	segs := segsOf(Valid(ver, lv).Draw(t, "src"))
+	srcVec := Valid(ver, lv).Draw(t, "src")
+	source := srcVec.String()
+	segs := segsOf(srcVec)
 	tab := tabOf(ver)
 	var labels []string
 	n := rapid.IntRange(0, 3).Draw(t, "nedits")
@@ -236,7 +244,7 @@ func Mutated(t *rapid.T, ver int) (string, []string) {
 	if len(labels) == 0 {
 		labels = []string{"unmodified"}
 	}
-	return strings.Join(segs, "/"), labels
+	return strings.Join(segs, "/"), labels, source
 }
 
 func splitSeg(seg string) (spec.Tok, bool) {
